@@ -28,9 +28,21 @@ SEARCH_METHODS = {"split", "rsplit", "partition", "rpartition", "find", "rfind",
                   "lstrip", "rstrip", "removeprefix", "removesuffix", "count", "startswith", "endswith"}
 
 
-def dict_literal_keys(fi):
-    """Keys of the dict literal a parser returns."""
+def dict_literal_keys(fi, ctx=None):
+    """Keys of the dict a parser returns (from its summary; the dict may be built in a temporary first)."""
     keys = []
+    if ctx is not None:
+        try:
+            s = ctx.evaluator(opaque=OPAQUE - {fi.qualname}).run(fi)
+            for e in s.returns():
+                vals = list(e.value) if isinstance(e.value, (tuple, list)) else [e.value]
+                for v in vals:
+                    if isinstance(v, dict):
+                        keys.extend(k for k in v if isinstance(k, str) and k not in keys)
+        except Exception:
+            keys = []
+    if keys:
+        return keys
     for n in ast.walk(fi.node):
         if isinstance(n, ast.Return) and n.value is not None:
             for d in ast.walk(n.value):
@@ -48,8 +60,8 @@ def run(ctx):
     buf = P(fi.params()[0], tm.BYTES)
     n0, r0 = pcs(tm.slc(buf, 4, None), 0), pcs(tm.slc(buf, 4, None), 1)
     segcond = tm.land([tm.cmp("eq", n0, 0), tm.truth(r0)])
-    in_keys = dict_literal_keys(ctx.fn("bits.tx.txin_deser"))
-    out_keys = dict_literal_keys(ctx.fn("bits.tx.txout_deser"))
+    in_keys = dict_literal_keys(ctx.fn("bits.tx.txin_deser"), ctx)
+    out_keys = dict_literal_keys(ctx.fn("bits.tx.txout_deser"), ctx)
     R.floor("C04.1", len(in_keys) + len(out_keys), 6, "parser_dict_keys")
 
     for seg in (True, False):
